@@ -40,6 +40,7 @@ Class(b) ==
 
 JudgeWord(e) ==
   IF e.panic # "" THEN "V:panic"
+  ELSE IF e.changed THEN "V:answer-depends-on-what-was-decoded-before"
   ELSE LET c == Class(e.b) IN
        IF c.cls = "other" THEN "outside-model"
        ELSE IF c.op = "" THEN (IF e.err THEN "ok" ELSE "V:decodes-an-unallocated-encoding")
